@@ -121,6 +121,15 @@ def base_scenario(seed, index, ex="asyncio"):
            "epilogue": ["settle", "observe", "probe", "close_pool"],
            "probe_reuse": [f"{scheme}://a.test/t/reuse0"]
            + ([f"{scheme}://b.test/t/reuse1"] if company in ("queued", "behind") else [])}
+    rt = gen.mk_rng(seed, "c05trace")
+    if rt.random() < 0.3:
+        # the caller observes the request through the 'trace' extension; the async
+        # callback awaits once per event, so cancellations also land inside it
+        scn["trace_yields"] = True
+        for c in callers:
+            for op in c["ops"]:
+                if op.get("op") == "request":
+                    op["trace"] = True
     if ex == "threads":
         scn.pop("sched")
         scn["policy"] = {"mode": "ops", "op_p": 0.5}
